@@ -5,6 +5,7 @@ import SevenZ.Lemmas.FilesInfo
 import SevenZ.Lemmas.SpecProps
 import SevenZ.Lemmas.SpecFiles
 import SevenZ.Lemmas.SpecPack
+import SevenZ.Lemmas.SpecHeader
 namespace SevenZ.C07
 open SevenZ SevenZ.Impl
 
@@ -87,6 +88,68 @@ theorem strict_reader_accepts_packinfo (p : PackInfo) (bytes rest : Bytes) (hw :
 
 example : (writePackInfo { packpos := 0, numstreams := 2, packsizes := [300, 70000], digestdefined := [true, false], crcs := [7, 0], enableDigests := true }).isSome = true := by
   decide
+
+
+/-- Writer conformance of the Folder / UnpackInfo section: for any number of folders, each
+    with any coder graph the grammar allows (1..32 coders, simple or complex, with or without
+    properties, ids up to 15 bytes, bind pairs in range, one or several packed streams), what
+    `UnpackInfo.write` emits is accepted by the strict reader and decodes to the same coders,
+    bind pairs, packed streams and per-coder unpack sizes ("counts agree between sections"). -/
+theorem strict_reader_accepts_unpackinfo (folders : List Folder) (hn : folders.length < 2 ^ 64)
+    (hwf : ∀ f ∈ folders, WFFolder f) (rest : Bytes) :
+    Spec.sUnpackInfo ((writeUnpackInfo folders).drop 1 ++ rest) = .ok (folders.map toSFolder, rest) :=
+  unpackinfo_strict_read folders hn hwf rest
+
+/-- the folder py7zr builds for the filter chain [Delta, LZMA2]-style two-coder chain is well-formed -/
+def exampleFolder : Folder :=
+  { coders := [{ method := [0x21], props := some [0x18] }, { method := [3], props := some [0] }],
+    bindpairs := [(1, 0)], packedIndices := [], unpacksizes := [30, 30] }
+
+example : WFFolder exampleFolder := by
+  refine ⟨by decide, ?_, by decide, by decide, by decide, by decide, by decide, by decide, by decide⟩
+  intro c hc
+  simp only [exampleFolder, List.mem_cons, List.not_mem_nil, or_false] at hc
+  rcases hc with rfl | rfl <;> exact ⟨by decide, by decide, by decide, by intro p hp; cases hp; decide⟩
+
+/-- Writer conformance of the SubStreamsInfo section: for any number of folders, any number
+    of sub-streams per folder (none, one, several), sizes that tile each folder's output, and
+    any digest-definedness pattern, what `SubstreamsInfo.write` emits — with NumUnpackStream and
+    Size elided or present as the writer decides — is accepted by the strict reader, which
+    recovers every count, every size (the implicit last one of each folder included) and every
+    digest ("declared unpacked sizes and CRCs", "counts agree between sections"). -/
+theorem strict_reader_accepts_substreams (s : SubStreams) (sf : List Spec.SFolder) (bytes rest : Bytes)
+    (hw : writeSubStreams s = some bytes) (hne : s.numUnpack ≠ [])
+    (hlen : s.numUnpack.length = sf.length) (hcrc : ∀ f ∈ sf, f.crc = none)
+    (hn : ∀ n ∈ s.numUnpack, n < 2 ^ 64)
+    (sizes : List Nat) (hs : s.unpacksizes = some sizes) (hok : SizesOK s.numUnpack sf sizes)
+    (hv : ∀ v ∈ sizes, v < 2 ^ 64)
+    (hdl : s.digestsdefined.length = s.numUnpack.sum) (hcl : s.digests.length = s.numUnpack.sum)
+    (hc : ∀ c ∈ s.digests, c < 256 ^ 4) :
+    Spec.sSubStreams sf (bytes.drop 1 ++ rest) = .ok ((s.numUnpack, sizes, expectedSubCrcs s), rest) :=
+  substreams_strict_read s sf bytes rest hw hne hlen hcrc hn sizes hs hok hv hdl hcl hc
+
+/-- Writer conformance of the whole StreamsInfo section (PackInfo + UnpackInfo + SubStreamsInfo
+    and the agreement of their counts) -/
+theorem strict_reader_accepts_streams (s : Streams) (p : PackInfo) (fs : List Folder) (ss : SubStreams) (sizes : List Nat)
+    (wf : WFStreams s p fs ss sizes) (bytes rest : Bytes) (hw : writeStreams s = some bytes) :
+    Spec.sStreams (bytes.drop 1 ++ rest) = .ok (expectedStreams p fs ss sizes, rest) :=
+  streams_strict_read s p fs ss sizes wf bytes rest hw
+
+/-- **Writer conformance of the whole header.**  For EVERY header the writer can hold — any
+    number of folders with any legal coder graphs, any number of packed streams with any digest
+    pattern, any number of sub-streams per folder whose sizes tile the folder, any member list
+    (names over all Unicode scalar values, empty-stream entries anywhere, times and attributes
+    defined or not), written at any file offset — the bytes `Header.write` emits in raw form
+    are accepted by the strict reader (a parser written from the format document that checks
+    every count, size, vector length, END marker and the agreement of counts between
+    sections) and decode to exactly the streams and members that were written, with nothing
+    left over. -/
+theorem strict_reader_accepts_header (h : Header) (s : Streams) (p : PackInfo) (fs : List Folder) (ss : SubStreams)
+    (sizes : List Nat) (fi : FilesInfo) (hs : h.mainStreams = some s) (hfi : h.filesInfo = some fi)
+    (wf : WFStreams s p fs ss sizes) (wff : WFFiles fi) (pos : Nat) (bytes : Bytes)
+    (hw : writeHeaderRaw true h pos = some bytes) :
+    Spec.readTop bytes = .ok (.raw (expectedHeader p fs ss sizes fi)) :=
+  header_strict_read h s p fs ss sizes fi hs hfi wf wff pos bytes hw
 
 /-- boolean vectors as written are read back by the strict reader (all-defined shortcut and
     bit field with zero padding), for every vector -/
